@@ -5,8 +5,48 @@
    FsImpl = transcription of crates/turmoil-fs (checked against the crate by the
    correspondence run), FsSpec = the reference tree, FsSafe = the known classes. *)
 From TV.Lib Require Import Base.
-From TV.Fs Require Import FsImpl FsSpec FsSafe C10_proofs.
+From TV.Fs Require Import FsImpl FsSpec FsSafe Refine C10_proofs.
 Open Scope N_scope.
+
+(* Refinement: for EVERY history (any length, any interleaving of handles, syncs
+   and sync coins) over the whole operation alphabet except Crash (C07) and the
+   two recursive conveniences create_dir_all / remove_dir_all, that meets none of
+   the known classes of FsSafe, every observation of the implementation is the
+   observation of the plain POSIX tree (errors up to [err_ok]).
+   Covered: open with every valid option combination, read/write/seek through
+   cursors, read_at/write_at at arbitrary offsets (holes, overlaps), set_len
+   shrinking and extending, sync_all / sync_data / sync_dir / background-sync
+   coins anywhere, remove_file, create_dir, remove_dir, metadata, exists,
+   read_dir (as sets), fs::read, fs::write, failing renames.
+   Not covered (named in partial_note): create_dir_all, remove_dir_all (checked by
+   correspondence and oracle only); renames that succeed, re-creation of removed
+   paths, handles used after their path was removed: refuted below. *)
+Theorem c10_refines : forall l,
+  forallb c10_op l = true -> known_free l = true ->
+  Forall2 obs_ok (snd (srun init_sworld l)) (snd (run (init_world 0) l)).
+Proof. exact refines_lemma. Qed.
+
+(* Sync operations never change anything observable: dropping any sync_all /
+   sync_data / sync_dir from a history leaves every other observation equal to
+   the same reference observation. *)
+Theorem c10_sync_is_invisible : forall l1 o l2,
+  is_sync o = true ->
+  forallb c10_op (l1 ++ o :: l2) = true -> known_free (l1 ++ o :: l2) = true ->
+  let ref := snd (srun init_sworld (l1 ++ l2)) in
+  let with_sync := snd (run (init_world 0) (l1 ++ o :: l2)) in
+  let without := snd (run (init_world 0) (l1 ++ l2)) in
+  known_free (l1 ++ l2) = true /\
+  Forall2 obs_ok ref without /\
+  Forall2 obs_ok ref (firstn (length l1) with_sync ++ skipn (S (length l1)) with_sync).
+Proof. exact sync_is_invisible_lemma. Qed.
+
+(* Non-vacuity: a history with truncation, holes, a sync coin, unlink, listing,
+   fs::write and rmdir satisfies the hypotheses, and its observations carry data. *)
+Example c10_nonvacuous :
+  forallb c10_op h_demo = true /\ known_free h_demo = true /\
+  impl_out h_demo 8 = OBytes [65; 66; 0; 0; 69] /\ impl_out h_demo 10 = ONames [] /\
+  impl_out h_demo 12 = OBytes [70; 71] /\ impl_out h_demo 14 = OBool false.
+Proof. vm_compute. repeat split; reflexivity. Qed.
 
 (* The passage of time changes nothing observable: a Tick anywhere in any
    history leaves the final state and every other observation unchanged. *)
@@ -70,6 +110,9 @@ Theorem c10_root_op_refuted :
   spec_out w_root_op 1 = OBool true /\ impl_out w_root_op 1 = OBool false.
 Proof. exact root_op_refuted_lemma. Qed.
 
+Print Assumptions c10_refines.
+Print Assumptions c10_sync_is_invisible.
+Print Assumptions c10_nonvacuous.
 Print Assumptions c10_time_is_invisible.
 Print Assumptions c10_hosts_isolated.
 Print Assumptions c10_rename_file_refuted.
